@@ -157,8 +157,10 @@ End Quote.
    [step] consumes one byte and emits bytes of the expanded string; None = the text
    is not (known to be) a single inert word.  It is deliberately conservative outside
    the image of Quote: any unquoted byte of [word_special], an unquoted backslash,
-   a `$` that does not start $'...', an unescaped $ or ` inside double quotes, an escape
-   that decodes to NUL, or (mksh) a hex digit directly after \xHH  give None.
+   a `$` that does not start $'...', an unescaped $ or ` inside double quotes, backslash-newline
+   inside double quotes, an escape that decodes to NUL, \c, \x \u \U without digits, octal above 0377,
+   \u \U that is no scalar value, or (mksh) a hex digit directly after \xHH  give None.
+   The text is meant to be non-empty, valid UTF-8 (the Go lexer refuses anything else) and in argument position.
    Inside the quotes it follows the parser (syntax/parser.go sglQuote/dollSglQuote,
    dblQuoted) and expand (wordField: inside double quotes the backslash before dquote \ $ ` is dropped;
    Format: the $'...' escapes  \a \b \e \E \f \n \r \t \v \\ \' \dquote \?  \NNN  \xHH  \uHHHH
@@ -192,13 +194,14 @@ Definition digit_of (k : ukind) (c : N) : option N :=
 Definition base_of (k : ukind) : N := match k with KOct => 8 | _ => 16 end.
 Definition kind_char (k : ukind) : N := match k with KX => 120 | KU => 117 | KBigU => 85 | KOct => 48 end.
 
-(* the bytes an escape with value v writes; None for NUL (expand cuts the string there) *)
+(* the bytes an escape with value v writes; None for NUL (expand cuts the string there), for an octal
+   value above 0377 and for \u/\U values that are no Unicode scalar value (expand.Format and bash differ there) *)
 Definition emit (k : ukind) (v : N) : option str :=
   if v =? 0 then None
   else match k with
        | KX => Some [v mod 256]
-       | KOct => Some [if 255 <? v then 255 else v]
-       | KU | KBigU => Some (encode_rune v)
+       | KOct => if 255 <? v then None else Some [v]
+       | KU | KBigU => if (MaxRune <? v) || in_range 55296 57343 v then None else Some (encode_rune v)
        end.
 
 Definition after_emit (l : lang) (k : ukind) : ustate :=
@@ -228,7 +231,7 @@ Definition step (l : lang) (st : ustate) (c : N) : option (ustate * str) :=
       else Some (UDbl, [c])
   | UDblBs =>
       if mem_N c [34; 92; 36; 96] then Some (UDbl, [c])
-      else if c =? 10 then Some (UDbl, [])
+      else if c =? 10 then None      (* backslash-newline: bash drops it, expand keeps it *)
       else Some (UDbl, [92; c])
   | UAnsi => ansi_plain c
   | UAnsiBs =>
@@ -245,6 +248,7 @@ Definition step (l : lang) (st : ustate) (c : N) : option (ustate * str) :=
       else if c =? 120 then Some (UAnsiNum KX 2 0 0, [])
       else if c =? 117 then Some (UAnsiNum KU 4 0 0, [])
       else if c =? 85 then Some (UAnsiNum KBigU 8 0 0, [])
+      else if c =? 99 then None      (* \cX: a control character in bash, kept literally by expand.Format *)
       else Some (UAnsi, [92; c])
   | UAnsiNum k rem acc nd =>
       match digit_of k c with
@@ -259,7 +263,7 @@ Definition step (l : lang) (st : ustate) (c : N) : option (ustate * str) :=
           end
       | None =>
           let pre := match nd with
-                     | O => Some [92; kind_char k]
+                     | O => None      (* \x \u \U without a digit (bash also reads \x{..}) *)
                      | _ => emit k acc
                      end in
           match pre, ansi_plain c with
